@@ -589,16 +589,34 @@ class CIPDriver:
             self.__log.verbose(">>> SEND >>> \n%s", PacketLazyFormatter(message))
             self._sock.send(message)
         except Exception as err:
+            self._abandon_transport()
             raise CommError("failed to send message") from err
 
     def _receive(self):
         try:
             reply = self._sock.receive()
         except Exception as err:
+            self._abandon_transport()
             raise CommError("failed to receive reply") from err
         else:
             self.__log.verbose("<<< RECEIVE <<< \n%s", PacketLazyFormatter(reply))
             return reply
+
+    def _abandon_transport(self):
+        """
+        A failed send or receive leaves the byte stream in an unknown state: the reply may still
+        arrive later and would be taken for the reply to the next request (replies are not matched
+        to requests).  The socket is never used again; ``open()`` starts a new session.
+        """
+        try:
+            if self._sock:
+                self._sock.close()
+        except Exception:
+            self.__log.exception("Error closing socket connection")
+        self._sock = None
+        self._target_is_connected = False
+        self._session = 0
+        self._connection_opened = False
 
 
 def parse_connection_path(path: str, auto_slot: bool = False) -> Tuple[str, Optional[int], List[PortSegment]]:
